@@ -176,8 +176,10 @@ def cosmos_msgs(custom_msg):
 
 def qualified(t):
     """`<svmon::Enc as svmon::Encoding<T>>::Wire` (= Vec<T>): T occurs only as a generic argument of a non-final path segment."""
-    return Ty(f"<svmon::Enc as svmon::Encoding<{t.rust}>>::Wire", lambda r, d: [t.gen(r, d + 1) for _ in range(r.choice([0, 1, 2]))], "vec", sub=(t,),
-              concrete=f"<svmon::Enc as svmon::Encoding<{t.concrete}>>::Wire", trait_rust=f"<svmon::Enc as svmon::Encoding<{t.trait_rust}>>::Wire")
+    q = Ty(f"<svmon::Enc as svmon::Encoding<{t.rust}>>::Wire", lambda r, d: [t.gen(r, d + 1) for _ in range(r.choice([0, 1, 2]))], "vec", sub=(t,),
+           concrete=f"<svmon::Enc as svmon::Encoding<{t.concrete}>>::Wire", trait_rust=f"<svmon::Enc as svmon::Encoding<{t.trait_rust}>>::Wire")
+    q.qself = True   # not usable as a query response type: sylvia takes response types as plain paths (DESIGN, limits)
+    return q
 
 
 def tup(t, u):
